@@ -596,15 +596,15 @@ func corpus(r *gal.Rand) []*parseCase {
 		c.First.Pending = &m
 		add(c)
 	}
-	pend("C04-F1 pending PAX size: signed APKINDEX truncated after a whole record", restAFirst(long), meta{Resize: ip(cut)})
+	pend("fixed C04-F1 replay: pending PAX size: signed APKINDEX truncated after a whole record", restAFirst(long), meta{Resize: ip(cut)})
 	pend("pending PAX size = real size - 1", restAFirst(long), meta{Resize: ip(n - 1)})
 	pend("pending PAX size = real size (no-op)", restAFirst(long), meta{Resize: ip(n)})
 	pend("pending PAX size: first byte of the last block", restAFirst(long), meta{Resize: ip(lastBlock + 1)})
 	pend("pending PAX size one block short (tar header error)", restAFirst(long), meta{Resize: ip(lastBlock)})
 	pend("pending PAX size 0", restAFirst(long), meta{Resize: ip(0)})
 	pend("pending PAX size into the padding", restAFirst(long), meta{Resize: ip(n + 1)})
-	pend("C04-F1 pending PAX path=.SIGN.x hides the signed APKINDEX", restAFirst(short), meta{Rename: sp(".SIGN.x")})
-	pend("C04-F1 pending GNU long name .SIGN.x hides the signed APKINDEX", restAFirst(short), meta{Rename: sp(".SIGN.x"), Gnu: true})
+	pend("fixed C04-F1 replay: pending PAX path=.SIGN.x hides the signed APKINDEX", restAFirst(short), meta{Rename: sp(".SIGN.x")})
+	pend("fixed C04-F1 replay: pending GNU long name .SIGN.x hides the signed APKINDEX", restAFirst(short), meta{Rename: sp(".SIGN.x"), Gnu: true})
 	pend("pending PAX path=DESCRIPTION on APKINDEX", restAFirst(short), meta{Rename: sp("DESCRIPTION")})
 	pend("pending PAX path=APKINDEX on DESCRIPTION", restDFirst(short), meta{Rename: sp("APKINDEX")})
 	pend("pending PAX path=.SIGN.x on DESCRIPTION", restDFirst(short), meta{Rename: sp(".SIGN.x")})
@@ -613,7 +613,7 @@ func corpus(r *gal.Rand) []*parseCase {
 	pend("pending PAX size on DESCRIPTION-first", restDFirst(short), meta{Resize: ip(3)})
 	for _, tl := range []int{1, 2} {
 		for _, rest := range [][]member{restAFirst(short), restDFirst(short)} {
-			c := base(fmt.Sprintf("C04-F2 %d zero block(s) at the end of the signature member", tl))
+			c := base(fmt.Sprintf("fixed C04-F2 replay: %d zero block(s) at the end of the signature member", tl))
 			c.Sigs = []sigSpec{valid("RSA256", k1)}
 			c.Rest = rest
 			c.First.Tail = tl
